@@ -21,18 +21,23 @@ def specMachineClass : Val → String
   | .str m => ((machineClass.find? (·.1 == m)).map (·.2)).getD "default"
   | _ => "default"
 
+theorem specStructs_eq : specStructs = specSF := rfl
+theorem specMachineClass_eq : specMachineClass = specMC := by
+  funext v; cases v <;> rfl
+
 /-- the assembler produces a layout of the description (non-vacuity of `Layout`, and the
     generator the correspondence check uses) -/
 theorem assemble_layout (env : Env) (d : ElfDesc) (tail : Nat) (bytes : Bytes)
-    (hwf : d.wf env = true) (h : d.assemble tail = some bytes) : Layout d bytes := by
-  sorry
+    (hwf : d.wf env = true) (h : d.assemble tail = some bytes) : Layout d bytes :=
+  assemble_layout_aux hwf h
 
 /-- opening: class, byte order, struct bundle and the decoded file header are the description's -/
 theorem open_exact (env : Env) (d : ElfDesc) (bytes : Bytes) (obs : ElfObs)
     (hwf : d.wf env = true) (hl : Layout d bytes) (ho : d.observe env = .ok obs) :
     ∃ f, openElf env specStructs specMachineClass bytes = .ok f ∧
       f.data = bytes ∧ f.cls = d.cls ∧ f.le = d.le ∧ f.S = d.S ∧ f.header = obs.header := by
-  sorry
+  rw [specStructs_eq, specMachineClass_eq]
+  exact open_aux hwf hl ho
 
 /-- counts honour the extended-numbering escapes -/
 theorem counts_exact (env : Env) (d : ElfDesc) (bytes : Bytes) (obs : ElfObs) (f : ElfFile)
@@ -40,7 +45,8 @@ theorem counts_exact (env : Env) (d : ElfDesc) (bytes : Bytes) (obs : ElfObs) (f
     (hf : openElf env specStructs specMachineClass bytes = .ok f) :
     numSections env f.S bytes f.header = .ok d.sections.length ∧
     numSegments env f.S bytes f.header f.shstr = .ok d.segments.length := by
-  sorry
+  rw [specStructs_eq, specMachineClass_eq] at hf
+  exact counts_aux hwf hl ho hf
 
 /-- every section, by index: specialised kind, name, every header field -/
 theorem get_section_exact (env : Env) (d : ElfDesc) (bytes : Bytes) (obs : ElfObs) (f : ElfFile)
@@ -48,42 +54,46 @@ theorem get_section_exact (env : Env) (d : ElfDesc) (bytes : Bytes) (obs : ElfOb
     (hf : openElf env specStructs specMachineClass bytes = .ok f)
     (i : Nat) (hi : i < d.sections.length) :
     (getSection env f.S bytes f.header f.shstr i).toOption = obs.sections[i]? := by
-  sorry
+  rw [specStructs_eq, specMachineClass_eq] at hf
+  exact get_section_aux hwf hl ho hf i hi
 
 /-- enumeration in file order -/
 theorem sections_exact (env : Env) (d : ElfDesc) (bytes : Bytes) (obs : ElfObs) (f : ElfFile)
     (hwf : d.wf env = true) (hl : Layout d bytes) (ho : d.observe env = .ok obs)
     (hf : openElf env specStructs specMachineClass bytes = .ok f) :
     iterSections env f.S bytes f.header f.shstr = .ok obs.sections := by
-  sorry
+  rw [specStructs_eq, specMachineClass_eq] at hf
+  exact sections_aux hwf hl ho hf
 
 theorem segments_exact (env : Env) (d : ElfDesc) (bytes : Bytes) (obs : ElfObs) (f : ElfFile)
     (hwf : d.wf env = true) (hl : Layout d bytes) (ho : d.observe env = .ok obs)
     (hf : openElf env specStructs specMachineClass bytes = .ok f) :
     iterSegments env f.S bytes f.header f.shstr = .ok obs.segments := by
-  sorry
+  rw [specStructs_eq, specMachineClass_eq] at hf
+  exact segments_aux hwf hl ho hf
 
 /-- lookups by name agree with the enumeration: the index found is the last section bearing
     the name, and absent names give nothing -/
 theorem lookup_exact (env : Env) (d : ElfDesc) (obs : ElfObs) (ho : d.observe env = .ok obs) (name : Bytes) :
-    ((sectionNameMap obs.sections).find? (·.1 == name)).map (·.2) = d.indexOfName name := by
-  sorry
+    ((sectionNameMap obs.sections).find? (·.1 == name)).map (·.2) = d.indexOfName name :=
+  lookup_exact_aux ho name
 
 /-- codes with a standard name are reported by that name and all others as the raw integer -/
 theorem codes_named (env : Env) (sub : Con) (table : String) (ctx : Fields) (n : Int) (s : String)
     (h : env.enumDecode table n = some s) :
     Con.decodeRaw env (.enum sub table true) ctx (.int n) = .ok (.str s) := by
-  sorry
+  simp [Con.decodeRaw, h]
 
 theorem codes_unnamed (env : Env) (sub : Con) (table : String) (ctx : Fields) (n : Int)
     (h : env.enumDecode table n = none) :
     Con.decodeRaw env (.enum sub table true) ctx (.int n) = .ok (.int n) := by
-  sorry
+  simp [Con.decodeRaw, h]
 
 /-- every configuration the translator enumerates is one the Spec defines structures for, and the
     struct bundle depends on `e_machine` only through its behaviour class -/
 theorem machine_factor (c : ElfCfg) (hc : c ∈ allElfCfgs) (m : String) :
     specMachineClass (.str m) ∈ machineClasses := by
-  sorry
+  have _ := hc
+  exact machine_factor_aux m
 
 end PyElf.Props.C01
